@@ -14,14 +14,7 @@ verus! {
 
 //@include contracts/metablock_specs.rs
 //@include contracts/metablock_stub.rs
-
-// a key of the caller's table signed the block: some table entry has this id and a valid signature attributed to it
-pub open spec fn table_key_signed(mb: Metablock, keys: Map<KeyId, PublicKey>, id: KeyId) -> bool {
-    signed_msg(mb.metadata) is Some &&
-    exists|k: KeyId, j: int| #[trigger] keys.contains_key(k) && 0 <= j < mb.signatures@.len()
-        && keys[k].kid() == id && (#[trigger] mb.signatures@[j]).kid() == id
-        && keys[k].sig_ok(signed_msg(mb.metadata)->0, mb.signatures@[j])
-}
+//@include contracts/stage_specs.rs
 
 proof fn lemma_counted_in_table(mb: Metablock, m: Map<KeyId, PublicKey>, ks: Seq<&PublicKey>, id: KeyId)   // [C01]
     requires ks.unref().to_set() == m.values(), counted_ok(mb, ks, id)
@@ -39,12 +32,7 @@ proof fn lemma_counted_in_table(mb: Metablock, m: Map<KeyId, PublicKey>, ks: Seq
 
 //@extract src/verifylib.rs fn:verify_layout_signatures props=C01
 //@contract ret=r
-    requires layout_keys@.len() <= u32::MAX,   // documented precondition: fewer than 2^32 trusted keys (`len() as u32`)
-    ensures
-        r is Ok ==> layout_keys@.len() >= 1,                        // [C01]
-        r is Ok ==> r->Ok_0 == layout.metadata,                     // [C01]
-        r is Ok ==> exists|good: Set<KeyId>| good.len() >= layout_keys@.len()
-            && forall|id: KeyId| good.contains(id) ==> table_key_signed(*layout, layout_keys@, id),   // [C01]
+//@include contracts/verify_layout_signatures.rs
 //@before /layout\.verify\(/
     proof { fact_keys_of_values(); fact_keyid_key_model(); }
 //@bind_tail res
@@ -104,19 +92,9 @@ pub open spec fn prefix_matches(mb: Metablock, j: int, short: Seq<char>) -> bool
             }
 //@end
 
-// C02: the block is validly signed by `key`, the signature being attributed to key's own id
-pub open spec fn signed_by(mb: Metablock, key: PublicKey) -> bool {
-    counted_ok(mb, seq![&key], key.kid())
-}
 //@extract src/verifylib.rs fn:verify_link_signature_thresholds_step props=C02,C14
 //@contract ret=r
-    ensures
-        r is Ok ==> r->Ok_0@.len() >= step.threshold,     // [C02]
-        r is Ok ==> forall|k: KeyId| #[trigger] r->Ok_0@.contains_key(k) ==>
-            links@.contains_key(k) && r->Ok_0@[k] == links@[k]
-            && step.pub_keys@.contains(k)
-            && pubkeys@.contains_key(k)
-            && signed_by(links@[k], pubkeys@[k]),           // [C02]
+//@include contracts/thresholds_step.rs
 //@before /let mut metablocks = HashMap::new\(\);/
     proof { fact_keyid_key_model(); fact_keys_of_vec(); }
 //@loop 1 iter=it
@@ -148,24 +126,10 @@ pub open spec fn signed_by(mb: Metablock, key: PublicKey) -> bool {
                 }
 //@end
 
-// the postcondition of verify_link_signature_thresholds_step as a predicate
-pub open spec fn step_links_ok(step: Step, links: Map<KeyId, Metablock>, pubkeys: Map<KeyId, PublicKey>, out: Map<KeyId, Metablock>) -> bool {
-    out.len() >= step.threshold
-    && forall|k: KeyId| #[trigger] out.contains_key(k) ==>
-        links.contains_key(k) && out[k] == links[k] && step.pub_keys@.contains(k)
-        && pubkeys.contains_key(k) && signed_by(links[k], pubkeys[k])
-}
-pub open spec fn links_of(all: Map<String, HashMap<KeyId, Metablock>>, name: String) -> Map<KeyId, Metablock> {
-    if all.contains_key(name) { all[name]@ } else { Map::empty() }
-}
 //@extract src/verifylib.rs fn:verify_link_signature_thresholds props=C02,C14
 //@subst G2 /let mut metadata_verified = HashMap::new\(\);/ => let mut metadata_verified: HashMap<String, HashMap<KeyId, Metablock>> = HashMap::new();
 //@contract ret=r
-    ensures
-        r is Ok ==> forall|i: int| 0 <= i < layout.steps@.len() ==> r->Ok_0@.contains_key(#[trigger] layout.steps@[i].name),   // [C02]
-        r is Ok ==> forall|name: String| #[trigger] r->Ok_0@.contains_key(name) ==> exists|j: int| 0 <= j < layout.steps@.len()
-            && layout.steps@[j].name == name
-            && step_links_ok(layout.steps@[j], links_of(steps_links_metadata@, name), layout.keys@, r->Ok_0@[name]@),   // [C02]
+//@include contracts/thresholds.rs
 //@before /let mut metadata_verified/
     proof { fact_string_ext(); fact_keyid_key_model(); }
 //@loop 1 iter=it
